@@ -81,8 +81,19 @@ Definition add_literal (idx value : string) (ty : mty) (c : cstate) : cstate :=
   {| c_inputs := c_inputs c; c_parties := c_parties c;
      c_literals := supdate idx (value, ty) (c_literals c); c_functions := c_functions c |}.
 
+(* process_operation: effect of one operation on the discovered functions and global tables *)
+Definition step_node (functions : list Z) (r : arec) (extra : list Z) (c : cstate) : res (list Z * cstate) :=
+  match r_node r with
+  | AInput name party doc => do c' <- add_input (r_id r) (r_ty r) name party doc c; Ok (extra, c')
+  | ALiteral v idx => Ok (extra, add_literal idx v (r_ty r) c)
+  | AMap _ fn | AReduce _ fn _ | ACall _ fn => Ok (if zmem fn functions then extra else zadd fn extra, c)
+  | AFunction _ _ _ => Ok (if zmem (r_id r) functions then extra else zadd (r_id r) extra, c)
+  | _ => Ok (extra, c)
+  end.
+
 (* traverse_and_process_operations: iterative DFS; returns the new table, the extra
-   functions discovered (not yet in [functions]) and the updated global tables *)
+   functions discovered (not yet in [functions]) and the updated global tables.
+   stack.extend(children) appends, pop() takes from the end: the head of [stack] is the top. *)
 Fixpoint traverse (fuel : nat) (st : list (Z * arec)) (functions : list Z)
          (stack : list Z) (ops : list mentry) (extra : list Z) (c : cstate)
   : res (list mentry * list Z * cstate) :=
@@ -97,22 +108,12 @@ Fixpoint traverse (fuel : nat) (st : list (Z * arec)) (functions : list Z)
             match lookup k st with
             | None => Err "KeyError"
             | Some r =>
-                let e := entry_of r in
-                match r_node r with
-                | AInput name party doc =>
-                    do c' <- add_input (r_id r) (r_ty r) name party doc c;
-                    traverse n st functions rest (ops ++ [e]) extra c'
-                | ALiteral v idx =>
-                    traverse n st functions rest (ops ++ [e]) extra (add_literal idx v (r_ty r) c)
-                | AMap _ fn | AReduce _ fn _ | ACall _ fn =>
-                    let extra' := if zmem fn functions then extra else zadd fn extra in
-                    (* stack.extend(children); pop() takes from the end *)
-                    traverse n st functions (rev (child_operations (r_node r)) ++ rest) (ops ++ [e]) extra' c
-                | AFunction _ _ _ =>
-                    let extra' := if zmem (r_id r) functions then extra else zadd (r_id r) extra in
-                    traverse n st functions rest (ops ++ [e]) extra' c
-                | _ =>
-                    traverse n st functions (rev (child_operations (r_node r)) ++ rest) (ops ++ [e]) extra c
+                match step_node functions r extra c with
+                | Ok (extra', c') =>
+                    traverse n st functions (rev (child_operations (r_node r)) ++ rest)
+                             (ops ++ [entry_of r]) extra' c'
+                | Err e => Err e
+                | OutOfFuel => OutOfFuel
                 end
             end
       end
@@ -120,6 +121,19 @@ Fixpoint traverse (fuel : nat) (st : list (Z * arec)) (functions : list Z)
 
 Definition store_fuel (st : list (Z * arec)) : nat :=
   (2 * (List.length st + fold_right (fun kr acc => (List.length (child_operations (r_node (snd kr))) + acc)%nat) O st) + 4)%nat.
+
+(* function.to_mir(operations): argument records are read back from AST_OPERATIONS *)
+Fixpoint arg_records (st : list (Z * arec)) (l : list Z) : res (list marg) :=
+  match l with
+  | [] => Ok []
+  | a :: l' =>
+      match lookup a st with
+      | Some {| r_ty := ty; r_node := AArg an _ |} =>
+          do t <- arg_records st l'; Ok ({| a_name := an; a_ty := ty; a_sref := no_sref |} :: t)
+      | Some _ => Err "AttributeError"
+      | None => Err "KeyError"
+      end
+  end.
 
 (* to_mir_function_list: LIFO worklist over discovered functions *)
 Fixpoint functions_loop (fuel : nat) (st : list (Z * arec)) (functions : list Z) (stack : list Z)
@@ -135,17 +149,7 @@ Fixpoint functions_loop (fuel : nat) (st : list (Z * arec)) (functions : list Z)
               do r <- traverse (store_fuel st) st functions [child] [] [] c;
               let '(ops, extra, c') := r in
               (* function.to_mir(operations): argument records are read from AST_OPERATIONS *)
-              do margs <- (fix go (l : list Z) : res (list marg) :=
-                             match l with
-                             | [] => Ok []
-                             | a :: l' =>
-                                 match lookup a st with
-                                 | Some {| r_ty := ty; r_node := AArg an _ |} =>
-                                     do t <- go l'; Ok ({| a_name := an; a_ty := ty; a_sref := no_sref |} :: t)
-                                 | Some _ => Err "AttributeError"
-                                 | None => Err "KeyError"
-                                 end
-                             end) args;
+              do margs <- arg_records st args;
               let mf := {| f_id := fid; f_args := margs; f_name := name; f_ret := child;
                            f_ops := ops; f_ret_ty := rty; f_sref := no_sref |} in
               functions_loop n st (functions ++ extra) (rev extra ++ rest) (acc ++ [mf]) c'
